@@ -125,6 +125,13 @@ impl Sched {
     /// called by a client thread when its operation has returned
     pub fn finished(&self, a: Actor, result: String) {
         let mut g = self.inner.lock().unwrap();
+        // a client thread left over from an earlier case (abandoned after a stall, or still inside a
+        // blocking call when its case ended) must not be taken for the current case's client
+        if let Some(my_gen) = GEN.with(|c| c.get()) {
+            if my_gen != g.gen {
+                return;
+            }
+        }
         let s = g.actors.entry(a).or_default();
         s.status = Some(Status::Finished(result));
         s.arrivals += 1;
@@ -180,6 +187,9 @@ impl Sched {
         let mut g = self.inner.lock().unwrap();
         let s = g.actors.entry(a).or_default();
         s.grants += 1;
+        // released from now on: whoever looks at the status before the thread has actually woken up
+        // must not take the yield point it is leaving for a fresh arrival
+        s.status = Some(Status::Running);
         let seen = s.arrivals;
         self.cv.notify_all();
         seen
